@@ -1,7 +1,19 @@
 (* C08 — a released session leaves nothing behind.
-   Whether the compiled library has freed every block is a fact about the heap at run time: no Gallina
-   model of this development can exhibit a leak or a double free of malloc'ed memory, and the check
-   decides that part by link-time allocation accounting (every generated life cycle, release at any
+   OWNERSHIP LEDGER (LdpcHeap.v, theorems below, section "ledger"): for LDPC-Staircase / 2D decoder sessions the
+   allocation behaviour of the streaming decoder, of of_finish_decoding (persistent effect) and of
+   of_release_codec_instance is a model: every partial sum, every stored repair copy and every decoded source symbol
+   is a named block in a ledger of live blocks; freeing a block that is not live makes the model stuck.  Proved for
+   every matrix of the decoder's shape, every history of submissions (any order, duplicates), every callback
+   behaviour, with or without of_finish_decoding: the ledger never gets stuck (no double or invalid free), every
+   live block is referenced from exactly one table slot (nothing is lost before release), and after release the
+   live blocks are exactly the library blocks stored in SOURCE entries - the decoded source symbols the API hands
+   to the application.  Tie: harness/drv_dec.c counts the library's live blocks with link-time wrappers after
+   set-up, after every submission call, after finish and after release; the numbers must equal the ledger's on
+   every generated LDPC/2D session.
+   Not in the ledger: call-local scratch (allocated and freed inside one call), the Gaussian elimination's temporaries,
+   out-of-memory exits, the Reed-Solomon codecs (two or three persistent blocks; counted at run time only).
+   Whether the COMPILED library has freed every block is a fact about the heap at run time: the check
+   also decides that by link-time allocation accounting (every generated life cycle, release at any
    point, the application freeing exactly what the API says it owns, live blocks must return to the
    level before the session) under AddressSanitizer.
    The parts of the bookkeeping that ARE logic, stated for the models tied to the C:
@@ -14,7 +26,7 @@
    - the Reed-Solomon finish allocates (or asks the callback for) exactly one buffer per source entry
      that is still empty, and none for an entry that holds a received symbol. *)
 From Coq Require Import Arith List Bool.
-From OFV Require Import ListAux Sparse SparseProofs ITModel MLModel RSApi RSApiProofs StableTables.
+From OFV Require Import ListAux Sparse SparseProofs ITModel ITProofs MLModel RSApi RSApiProofs StableTables LdpcHeap LdpcHeapProofs.
 Import ListNotations.
 
 Theorem sparse_entry_pool_is_conserved : forall m, SparseProofs.WF m -> nblocks m * BLOCK = nfree m + total m.
@@ -35,6 +47,61 @@ Theorem rs_finish_one_buffer_per_missing_source :
   evs s ++ (if cb then filter (fun j => negb (is_some (nth j (RSApi.tab s) None))) (seq 0 k) else []).
 Proof. exact rs_callback_events_proof. Qed.
 
+(* ---- ledger ---- *)
+(* the ledger does not change what the decoder does: its control state is the IT model's *)
+Theorem ledger_follows_the_decoder_model : forall cbf fuel s c p,
+  match hdecode cbf fuel s c p with Some s' => decode ux tt fuel (core s) c tt = Some (core s') | None => True end.
+Proof. exact hdecode_sim. Qed.
+
+(* ... and never gets stuck where the decoder model does not: no free of a block that is not live, at any depth
+   of the recursion, for any callback behaviour *)
+Theorem ledger_never_stuck_in_a_submission :
+  forall cbf (H0 : list (list nat)) (R0 N0 : nat), length H0 = R0 -> (forall i, i < R0 -> NoDup (nth i H0 [])) ->
+  (forall i c, i < R0 -> In c (nth i H0 []) -> c < N0) -> (forall i, i < R0 -> 2 <= length (nth i H0 [])) -> R0 <= N0 ->
+  forall fuel s c, Good unit H0 R0 N0 (core s) -> HInv s -> c < N0 -> N0 < fuel -> exists s', hdecode cbf fuel s c App = Some s'.
+Proof. exact hdecode_total. Qed.
+
+(* every reachable state: each live block is referenced by exactly one slot, each referenced block is live *)
+Theorem ledger_invariant_holds_in_every_reachable_state :
+  forall cbf (H0 : list (list nat)) (R0 N0 : nat), length H0 = R0 -> (forall i, i < R0 -> NoDup (nth i H0 [])) ->
+  (forall i c, i < R0 -> In c (nth i H0 []) -> c < N0) -> (forall i, i < R0 -> 2 <= length (nth i H0 [])) -> R0 <= N0 ->
+  forall fuel esis s s', Good unit H0 R0 N0 (core s) -> (forall c, In c esis -> c < N0) -> HInv s ->
+  hrun cbf fuel s esis = Some s' -> HInv s' /\ Good unit H0 R0 N0 (core s').
+Proof. exact hrun_inv. Qed.
+
+Theorem ledger_finish_keeps_the_invariant : forall cbf fuel perm s s' ok, HInv s -> hfinish cbf fuel perm s = Some (s', ok) -> HInv s'.
+Proof. exact hfinish_inv. Qed.
+Theorem ledger_finish_never_stuck : forall cbf fuel perm s o, HInv s -> ml_finish ux tt fuel perm (core s) = Some o ->
+  exists s', hfinish cbf fuel perm s = Some (s', o_ok o) /\ core s' = o_st o.
+Proof. exact hfinish_no_stuck. Qed.
+
+(* release at any point: frees only live blocks, each once; what remains is what the application owns *)
+Theorem release_frees_everything_but_the_decoded_sources : forall s, HInv s ->
+  exists h, hrelease s = Some h /\ (forall b, In b (live h) <-> In b (lib_blocks (skipn (r (core s)) (htab s)))) /\ NoDup (live h).
+Proof. exact hrelease_spec. Qed.
+
+(* the whole life cycle, from the initial state *)
+Theorem ldpc_session_leaves_nothing_behind :
+  forall cbf (H0 : list (list nat)) (R0 N0 : nat), length H0 = R0 -> (forall i, i < R0 -> NoDup (nth i H0 [])) ->
+  (forall i c, i < R0 -> In c (nth i H0 []) -> c < N0) -> (forall i, i < R0 -> 2 <= length (nth i H0 [])) -> R0 <= N0 ->
+  forall fuel esis fin s, (forall c, In c esis -> c < N0) -> session cbf H0 R0 N0 fuel esis fin = Some s ->
+  exists h, hrelease s = Some h /\ (forall b, In b (live h) <-> In b (lib_blocks (skipn R0 (htab s)))) /\ NoDup (live h).
+Proof. exact session_leaves_nothing_behind. Qed.
+
+Theorem ldpc_session_ledger_never_stuck :
+  forall cbf (H0 : list (list nat)) (R0 N0 : nat), length H0 = R0 -> (forall i, i < R0 -> NoDup (nth i H0 [])) ->
+  (forall i c, i < R0 -> In c (nth i H0 []) -> c < N0) -> (forall i, i < R0 -> 2 <= length (nth i H0 [])) -> R0 <= N0 ->
+  forall fuel esis, (forall c, In c esis -> c < N0) -> N0 < fuel ->
+  exists s1, session cbf H0 R0 N0 fuel esis None = Some s1
+    /\ forall fuel2 perm o, ml_finish ux tt fuel2 perm (core s1) = Some o ->
+         exists s2, session cbf H0 R0 N0 fuel esis (Some (fuel2, perm)) = Some s2 /\ core s2 = o_st o.
+Proof. exact session_never_stuck. Qed.
+
+Print Assumptions ledger_never_stuck_in_a_submission.
+Print Assumptions ledger_invariant_holds_in_every_reachable_state.
+Print Assumptions release_frees_everything_but_the_decoded_sources.
+Print Assumptions ldpc_session_leaves_nothing_behind.
+Print Assumptions ldpc_session_ledger_never_stuck.
 Print Assumptions sparse_entry_pool_is_conserved.
 Print Assumptions decoded_symbol_buffers_are_never_replaced.
 Print Assumptions rs_finish_one_buffer_per_missing_source.
